@@ -265,6 +265,9 @@ struct SigAgg {
     what: String,
     detail: Value,
     case: Value,
+    /// further cases with this signature (kept for hangs only, up to 7: each is re-run before the hang is believed)
+    #[serde(default)]
+    others: Vec<(u64, Value)>,
 }
 
 #[derive(Debug, Default, Serialize, Deserialize, Clone)]
@@ -301,10 +304,22 @@ impl Agg {
             match self.sigs.get_mut(k) {
                 Some(e) => {
                     e.count += v.count;
+                    let mut all: Vec<(u64, Value)> = e.others.drain(..).chain(v.others.iter().cloned()).collect();
                     if v.first_idx < e.first_idx {
+                        all.push((e.first_idx, e.case.clone()));
                         let c = e.count;
                         *e = v.clone();
                         e.count = c;
+                    } else if k.contains("\thang|") {
+                        all.push((v.first_idx, v.case.clone()));
+                    }
+                    if k.contains("\thang|") {
+                        all.sort_by_key(|x| x.0);
+                        all.dedup_by_key(|x| x.0);
+                        all.truncate(7);
+                        e.others = all;
+                    } else {
+                        e.others = vec![];
                     }
                 }
                 None => {
@@ -479,6 +494,7 @@ impl<'a> WorkerState<'a> {
             what: v.what.clone(),
             detail: v.detail.clone(),
             case: case.clone(),
+            others: vec![],
         });
         e.count += 1;
     }
@@ -843,7 +859,11 @@ fn run_shard(
             what: format!("{kind} ({how}) while running the case (cap {CASE_TIMEOUT_S}s of CPU time / {} GiB)", WORKER_AS_LIMIT >> 30),
             detail: Value::Null,
             case: case.clone(),
+            others: vec![],
         });
+        if st == 2 && e.count > 0 && e.others.len() < 7 && e.first_idx != idx {
+            e.others.push((idx, case.clone()));
+        }
         e.count += 1;
         merged.cases += 1;
         merged.evals += 1;
@@ -961,7 +981,7 @@ pub fn replay_main(prop: &dyn Prop, path: &str) -> i32 {
             let mut hit = false;
             for v in &vs {
                 println!("REPLAY-VIOLATION signature={} :: {}", v.signature, v.what);
-                if Some(&v.signature) == expected.as_ref() || expected.is_none() {
+                if Some(&v.signature) == expected.as_ref() || expected.is_none() || expected.as_deref().map(|e| e.starts_with("hang|")).unwrap_or(false) {
                     hit = true;
                 }
             }
@@ -1135,8 +1155,66 @@ pub fn coordinator_main(prop: &dyn Prop, tier: Tier, seed: u64) -> i32 {
 
         // confirm in fresh processes (aborts / hangs cannot be replayed in-process safely: they are
         // confirmed by the restart logic above, which already ran the case in its own process)
-        if sig.starts_with("abort|") || sig.starts_with("hang|") {
+        if sig.starts_with("abort|") {
             violation_lines.push(format!("VIOLATION property={id} replay={path}"));
+            continue;
+        }
+        // a case that exceeded the CPU cap was taken out of its worker and skipped. The cap is generous for what a case
+        // does, but time a process spends in the kernel (page reclaim on a machine short of memory) counts too: every
+        // such case is run again, four times in a fresh process and once after its worker's history. A replay that
+        // exceeds the cap again, or shows any violation, confirms; a case that completes clean every time has been
+        // judged after all and is noted.
+        if sig.starts_with("hang|") {
+            let mut cases: Vec<(u64, Value, String)> = vec![(sa.first_idx, sa.case.clone(), path.clone())];
+            for (k, (idx, case)) in sa.others.iter().enumerate() {
+                let p = format!("{replay_dir}/{}.{}.json", sanitize(sig), k + 2);
+                let mut d = doc.clone();
+                d["case_index"] = json!(idx);
+                d["case"] = case.clone();
+                d["history"] = json!({"shard": idx.wrapping_add(seed) % nshards, "nshards": nshards, "seed": seed, "upto": idx});
+                let _ = std::fs::write(&p, serde_json::to_string_pretty(&d).unwrap());
+                cases.push((*idx, case.clone(), p));
+            }
+            let mut confirmed: Option<String> = None;
+            if sa.count as usize > cases.len() {
+                confirmed = Some(path.clone());
+            }
+            'cases: for (_, _, p) in &cases {
+                if confirmed.is_some() {
+                    break;
+                }
+                for attempt in 0..5 {
+                    let with_history = attempt == 4;
+                    if with_history {
+                        if history_fallbacks_left == 0 {
+                            break;
+                        }
+                        history_fallbacks_left -= 1;
+                    }
+                    let out = Command::new(&exe)
+                        .arg(id)
+                        .arg("--replay")
+                        .arg(p)
+                        .env("VERIF_REPLAY_NO_HISTORY", if with_history { "0" } else { "1" })
+                        .stdin(Stdio::null())
+                        .stderr(Stdio::null())
+                        .output();
+                    match out {
+                        Ok(out) if out.status.code() == Some(0) => {}
+                        _ => {
+                            confirmed = Some(p.clone());
+                            break 'cases;
+                        }
+                    }
+                }
+            }
+            match confirmed {
+                Some(p) => violation_lines.push(format!("VIOLATION property={id} replay={p}")),
+                None => println!(
+                    "NOTE: {} case(s) exceeded the cap of {CASE_TIMEOUT_S}s of CPU time once ({sig}); each was run again in fresh processes (4 times alone, once after its worker's history) and completed without a violation every time: judged by those runs, not counted",
+                    cases.len()
+                ),
+            }
             continue;
         }
         // two replays in fresh processes; when they disagree, up to six more: the outcome of the case then depends on
